@@ -527,6 +527,27 @@ def stmt_key(node):
     return s[:200]
 
 
+def shape_key(node):
+    """Statement text with every plain variable name replaced by a positional placeholder ($0, $1 ... in order of
+    first appearance; `self` kept).  Attribute, method, keyword and constant texts stay.  Used to key known findings so
+    that renaming a local variable does not turn a recorded finding into a new one."""
+    import copy as _copy
+    try:
+        n2 = _copy.deepcopy(node)
+    except Exception:
+        return stmt_key(node)
+    seen = {}
+    names = [x for x in ast.walk(n2) if isinstance(x, ast.Name) and x.id not in ("self", "cls", "True", "False", "None")]
+    names.sort(key=lambda x: (getattr(x, "lineno", 0), getattr(x, "col_offset", 0)))
+    for x in names:
+        if x.id not in seen:
+            seen[x.id] = "v%d" % len(seen)
+    for x in names:
+        x.id = seen[x.id]
+    s = " ".join(norm(n2).split())
+    return s[:200]
+
+
 def loc(fi_or_mod, node):
     rel = fi_or_mod.file if isinstance(fi_or_mod, FunctionInfo) else fi_or_mod.relpath
     return "%s:%d" % (rel, getattr(node, "lineno", 0))
